@@ -3,6 +3,8 @@ import Abmarl.Model.ObserversDriver
 import Abmarl.Model.DoneDriver
 import Abmarl.Model.MgrDriver
 import Abmarl.Spec.Examples
+import Abmarl.Model.CorridorDriver
+import Abmarl.Model.MultiGridDriver
 /-!
 Driver glue for the packaged example simulations (`gexample`, `mgrx`).  Trusted base.
 
@@ -27,6 +29,9 @@ Driver glue for the packaged example simulations (`gexample`, `mgrx`).  Trusted 
 * reply `(modelTrace specOnModel specOnImpl pre)`: `specEx` on the model's and on the
   implementation's trace (1/0; −1: no or unparsable trace), and `exPre` (the hypotheses of
   `examples_hist`).
+
+A configuration `(corridor end n)` (`MultiCorridor`, not a grid world) is handed to `Model/CorridorDriver.lean`
+(both ops), a configuration `(multigrid learning comp)` (`MultiAgentGridSim`) to `Model/MultiGridDriver.lean`.
 
 **`(mgrx cfg stat dyn0 kind shuffle mgrTape simTape ops implTrace)`** — a real manager over the
 real example; `ops` = `(r)` | `(s ((agent (dr dc) attack)…))`; entries as in `mgr` with observations
@@ -143,6 +148,8 @@ def b2v (b : Bool) : Val := Val.ofBool b
 
 def handle (args : List Val) : Option Val := do
   match args with
+  | (.list (.atom "corridor" :: _)) :: _ => CorridorDriver.handle args      -- `MultiCorridor` (not a grid world)
+  | (.list (.atom "multigrid" :: _)) :: _ => MultiGridDriver.handle args    -- `MultiAgentGridSim`
   | [cfg, stat, dyn, ops, impl] =>
     let cfg ← cfg? cfg
     let w0 ← world? stat dyn
@@ -222,6 +229,8 @@ def encMEntry (e : ME) : Val :=
 
 def handleMgr (args : List Val) : Option Val := do
   match args with
+  | (.list (.atom "corridor" :: _)) :: _ => CorridorDriver.handleMgr args
+  | (.list (.atom "multigrid" :: _)) :: _ => MultiGridDriver.handleMgr args
   | [cfg, stat, dyn, k, sh, mtape, stape, ops, impl] =>
     let cfg ← cfg? cfg
     let w0 ← world? stat dyn
